@@ -46,7 +46,8 @@ QueryOK(rule, nodes, ib, tags, q) ==
                        /\ Len(q.gt) = n /\ \A i \in 1..n : q.gt[i] = G(q.val, T[i])
                        /\ Len(q.ht) = n /\ \A i \in 1..n : Len(q.ht[i]) = n /\ \A j \in 1..n : q.ht[i][j] = H(q.val, T[i], T[j]))
                  \* index value = base / value, or zero before the first node; an error without a base
-                 /\ IF ib = <<>> THEN q.ivo = "err"
+                 /\ IF ~("ivo" \in DOMAIN q) THEN TRUE
+                    ELSE IF ib = <<>> THEN q.ivo = "err"
                     ELSE IF q.x < nodes[1].d THEN q.ivo = "ok" /\ q.iv.k = "F" /\ q.iv.re = FZ
                     ELSE /\ q.ivo = "ok" /\ IsNum(q.iv)
                          /\ LET IV == Div(Const(ib[1], NS), Strip(W), NS) IN
@@ -80,7 +81,14 @@ IndexLeft == /\ l = 0 /\ Ev.op = "index_left"
              /\ LET lst == [k \in 1..Ev.n |-> 2 * k] want == IndexLeftDecl(lst, Ev.rank) IN
                 ok' = (Ev.i64 = want /\ Ev.f64 = want)
              /\ why' = "index_left" /\ l' = 1 /\ UNCHANGED h
+\* a node set observed mid-life (the trace of the repository's own tests records every look-up an interpolation rule
+\* answers, with the nodes it was given): the nodes must be in date order and every look-up must be the rule's answer
+DateOrdered(nodes) == \A i \in 1..(Len(nodes) - 1) : nodes[i].d < nodes[i + 1].d
+Given == /\ l = 0 /\ Ev.op = "given"
+         /\ IF Len(Ev.state.nodes) < 2 THEN ok' = TRUE /\ why' = "given:not judged (fewer than two nodes)"
+            ELSE ok' = (DateOrdered(Ev.state.nodes) /\ StateOK(Ev.rule, Ev.ib, Ev.state.nodes, Ev.state)) /\ why' = "given"
+         /\ l' = 1 /\ UNCHANGED h
 Finish == (l = Len(Hist[h].ev) \/ ~ok \/ (Prop = "C11" /\ l >= 1)) /\ UNCHANGED vars
-Next == New \/ Switch \/ IndexLeft \/ Finish
+Next == New \/ Switch \/ IndexLeft \/ Given \/ Finish
 Accepted == ok
 ===============================================================================
